@@ -1,5 +1,5 @@
 #!/usr/bin/env python3
-"""tools/quiet_all.py [workers]: apply every behaviour-preserving edit of quiet/ALL.json to its own scratch copy, extract facts once
+"""tools/quiet_all.py [workers [edit ids..]]: apply every behaviour-preserving edit of quiet/ALL.json to its own scratch copy, extract facts once
 and run ALL property checks on it; report any rule that fires (beyond what is known/failing on the unchanged tree)."""
 import importlib, json, os, shutil, sys
 from concurrent.futures import ProcessPoolExecutor
@@ -38,6 +38,9 @@ def one(q):
 
 if __name__ == '__main__':
     qs = json.load(open(os.path.join(HERE, 'quiet', 'ALL.json')))
+    only = [a for a in sys.argv[2:]]
+    if only:
+        qs = [q for q in qs if q['id'] in only]
     bad = 0
     with ProcessPoolExecutor(max_workers=int(sys.argv[1]) if len(sys.argv) > 1 else 6) as ex:
         for qid, st, res in ex.map(one, qs):
